@@ -94,6 +94,49 @@ class VHex:
         return f"VHex({self.b})"
 
 
+class VWord:
+    """str that is element number `i` (symbolic) of a concrete list of pairwise distinct, whitespace-free words."""
+    __slots__ = ("i", "words")
+
+    def __init__(self, i, words):
+        self.i = i
+        self.words = words
+
+    def __repr__(self):
+        return f"VWord({self.i})"
+
+
+class VPhrase:
+    """str equal to ' '.join(items) where items are VWord / concrete whitespace-free words."""
+    __slots__ = ("items",)
+
+    def __init__(self, items):
+        self.items = list(items)
+
+    def __repr__(self):
+        return f"VPhrase({self.items})"
+
+
+class VStr:
+    """str of symbolic content: the sequence of its code points.  Only concatenation, equality, normalisation and
+    encoding (both uninterpreted) are modelled."""
+    __slots__ = ("z",)
+
+    def __init__(self, z):
+        self.z = z
+
+    def __repr__(self):
+        return f"VStr({self.z})"
+
+
+def zstr(v):
+    if isinstance(v, VStr):
+        return v.z
+    if isinstance(v, str):
+        return seqlit([ord(c) for c in v])
+    raise Unsupported(f"not a str: {v!r}")
+
+
 class VSeq:
     """list with symbolic length; elem in {'int', 'bytes'}."""
     __slots__ = ("z", "elem", "elen")
@@ -145,7 +188,7 @@ def mk_bool(z):
 
 def is_sym(v):
     """True if v (deeply) contains a symbolic value."""
-    if isinstance(v, (VInt, VBool, VBytes, VSeq, VHex, VOpaque)):
+    if isinstance(v, (VInt, VBool, VBytes, VSeq, VHex, VOpaque, VWord, VPhrase, VStr)):
         return True
     if isinstance(v, (tuple, list)):
         return any(is_sym(x) for x in v)
